@@ -1,5 +1,30 @@
-From Coq Require Import ZArith.
+From Coq Require Import ZArith List.
 From DV Require Import RefCas.
+From DV Require PackedRefs.
 Require Extraction.
 Require Import ExtrOcamlBasic.
-Extraction "model.ml" run init holds_lock Z.succ.
+
+(* the packed-refs model behind an interface of numbers only, so that the driver never names its constructors *)
+Definition pk_kind (o : nat * (nat * nat)) : PackedRefs.kind :=
+  match fst o with
+  | 0 => PackedRefs.KPack
+  | 1 => PackedRefs.KCas (fst (snd o)) (snd (snd o))
+  | 2 => PackedRefs.KSet (fst (snd o))
+  | 3 => PackedRefs.KDel (fst (snd o))
+  | _ => PackedRefs.KRead
+  end.
+Definition pk_res (p : PackedRefs.pc) : nat :=
+  match p with
+  | PackedRefs.PEnd PackedRefs.RTrue => 1
+  | PackedRefs.PEnd PackedRefs.RFalse => 2
+  | PackedRefs.PEnd PackedRefs.RLocked => 3
+  | PackedRefs.PEnd (PackedRefs.RSeen None) => 4
+  | PackedRefs.PEnd (PackedRefs.RSeen (Some v)) => 5 + v
+  | _ => 0
+  end.
+Definition pk_run (l0 p0 : option nat) (ops : list (nat * (nat * nat))) (sched : list nat) : list nat * (option nat * option nat) :=
+  let l := map pk_kind ops in
+  let s := PackedRefs.run (PackedRefs.init l0 p0 l) sched in
+  (map (fun i => pk_res (PackedRefs.a_pc (PackedRefs.acts s i))) (seq 0 (length l)), (PackedRefs.loose s, PackedRefs.packed s)).
+
+Extraction "model.ml" run init holds_lock pk_run Z.succ.
